@@ -692,7 +692,7 @@ def main(argv):
     with open(os.path.join(ROOT, "evidence", f"{prop}.json"), "w") as f:
         json.dump(ev, f, indent=1, sort_keys=True)
         f.write("\n")
-    log(f"[summary] {prop} tier={tier} sequences={agg['sequences']} ops={agg['ops']} distinct_nontrivial={len(agg['hashes'])} "
+    log(f"[summary] {prop} tier={tier} evaluations={coverage['evaluations']} sequences={agg['sequences']} ops={agg['ops']} distinct_nontrivial={coverage['distinct_nontrivial']} "
         f"diffs={len(diffs)} monitor={len(monitor_viol)} known={len(known_hits)} crashes={len(crashes)} "
         f"obligations_discharged={ob['discharged']}/{ob['obligations']} wall={ev['wall_s']}s")
     for line in violation_lines[:3]:
